@@ -39,6 +39,8 @@ pub enum Status {
     /// Parked in a visible wait; runnable iff its predicate holds.
     Waiting,
     Finished,
+    /// slot reserved for a background thread that has not been adopted yet
+    NotStarted,
 }
 
 struct Pred(*const (dyn Fn() -> bool + 'static));
@@ -100,10 +102,16 @@ pub struct Sched {
 }
 
 impl Sched {
-    pub fn new(prefix: Vec<usize>, horizon: usize) -> Arc<Sched> {
+    /// `background`: roles of the store's background threads in the order that fixes
+    /// their thread ids (adoption order is not deterministic).
+    pub fn new(prefix: Vec<usize>, horizon: usize, background: &[&'static str]) -> Arc<Sched> {
+        let threads = background
+            .iter()
+            .map(|role| ThreadInfo { role, app: false, status: Status::NotStarted, last_point: "unborn", last_args: (0, 0), pred: None, last_scheduled: 0 })
+            .collect();
         Arc::new(Sched {
             m: Mutex::new(State {
-                threads: Vec::new(),
+                threads,
                 controlled: false,
                 token: None,
                 prev: None,
@@ -136,6 +144,15 @@ impl Sched {
     /// in a fixed order before the controlled phase starts.
     pub fn register(&self, role: &'static str, app: bool) -> usize {
         let mut st = self.m.lock();
+        if !app {
+            if let Some(tid) = st.threads.iter().position(|t| t.role == role && t.status == Status::NotStarted) {
+                st.threads[tid].status = Status::Running;
+                st.threads[tid].last_point = "start";
+                MY_TID.with(|c| c.set(Some(tid)));
+                self.cv.notify_all();
+                return tid;
+            }
+        }
         let tid = st.threads.len();
         st.threads.push(ThreadInfo {
             role,
@@ -220,7 +237,7 @@ impl Sched {
                 .threads
                 .iter()
                 .enumerate()
-                .filter(|(_, t)| t.status != Status::Finished)
+                .filter(|(_, t)| t.status != Status::Finished && t.status != Status::NotStarted)
                 .map(|(i, t)| format!("T{i}({}) blocked at {}{:?}", t.role, t.last_point, t.last_args))
                 .collect();
             st.outcome = Some(Outcome::Deadlock(who.join("; ")));
@@ -288,7 +305,7 @@ impl Sched {
         st.controlled = false;
         st.token = None;
         for t in st.threads.iter_mut() {
-            if t.status != Status::Finished {
+            if t.status != Status::Finished && t.status != Status::NotStarted {
                 t.status = Status::Running;
                 t.pred = None;
             }
@@ -348,7 +365,7 @@ impl Sched {
         st.controlled = true;
         self.cv.notify_all();
         loop {
-            let ready = st.threads.len() >= expected_threads && st.threads.iter().all(|t| t.status != Status::Running);
+            let ready = st.threads.len() >= expected_threads && st.threads.iter().all(|t| t.status != Status::Running && t.status != Status::NotStarted);
             if ready {
                 break;
             }
